@@ -9,7 +9,13 @@ Protocol (one self-contained history per line, a fresh simulation each time):
         K                               every known period + value  -> [p=v1;..&p=...] (sorted)
 
 `<mode>` is how the values reach the real code: f list of Python floats, i list of Python ints,
-F float64 array, I int64 array, g float32 array, j int32 array (the model ignores it).
+t / u tuples of floats / ints, F float64 array, I int64 array, g float32 array (exactly the dtype
+of a float variable), j int32 array (exactly the dtype of an int variable). `<mode>@<k>` passes the
+caller's object number `k`: built from the values at its first use, then THE SAME OBJECT is passed
+again as it then is (the values in the token are what the caller put into it). The model ignores
+the mode: an argument is an input, never scratch space. After every `set_input` the adapter
+compares the caller's object with a snapshot taken before the call; when it changed the answer is
+`ok!<content now>` / `ERR!<content now>`, which the oracle reports as `caller-array-mutated`.
 Values are exact rationals; the generator keeps every amount, partial sum and share on the
 quarter-unit lattice below 2**20, where float32 arithmetic is exact (DESIGN section 4).
 """
@@ -27,8 +33,8 @@ from ..perutil import addm, fmt_date, parse_date
 UNIT_IDX = {"weekday": 0, "week": 1, "day": 2, "month": 3, "year": 4, "eternity": 5}
 RULES = ("absent", "dispatch", "divide")
 KINDS = ("num", "int")
-INT_MODES = ("i", "I", "j")
-FLOAT_MODES = ("f", "F", "g")
+INT_MODES = ("i", "I", "j", "u")
+FLOAT_MODES = ("f", "F", "g", "t")
 ORDER = {"day": 0, "month": 1, "year": 2}
 
 _INT = re.compile(r"^-?[0-9]+$")
@@ -137,8 +143,12 @@ def _to_arg(mode, vals):
         ints = [int(x) for x in vals]
         if mode == "i":
             return ints
+        if mode == "u":
+            return tuple(ints)
         return numpy.array(ints, dtype=numpy.int64 if mode == "I" else numpy.int32)
     fl = [float(x) for x in vals]
+    if mode == "t":
+        return tuple(fl)
     if mode == "F":
         return numpy.array(fl, dtype=numpy.float64)
     if mode == "g":
@@ -148,6 +158,14 @@ def _to_arg(mode, vals):
 
 def _show_arr(a) -> str:
     return ";".join(rtok(Fraction(float(x))) for x in a)
+
+
+def _snapshot_arg(arg):
+    """(type, dtype, content) of the caller's object, detached from it"""
+    import numpy
+    if isinstance(arg, numpy.ndarray):
+        return ("ndarray", str(arg.dtype), arg.shape, arg.tolist())
+    return (type(arg).__name__, None, None, list(arg))
 
 
 def _key(p):
@@ -163,15 +181,26 @@ def impl(case: Case) -> str:
     sim = simulations.SimulationBuilder().build_default_simulation(_tbs(), count)
     name = f"{rule}_{du}_{kind}"
     out = []
+    objects = {}          # the caller's own objects, by number (`<mode>@<k>`)
     for op in ops:
         if op[0] == "S":
-            arg = _to_arg(op[2], op[3])
+            mode, _, obj = op[2].partition("@")
+            if obj and obj in objects:
+                arg = objects[obj]             # the very object passed before, as it is now
+            else:
+                arg = _to_arg(mode, op[3])
+                if obj:
+                    objects[obj] = arg
+            snap = _snapshot_arg(arg)
             period = _real_period(op[1])
             try:
                 sim.set_input(name, period, arg)
-                out.append("ok")
+                ans = "ok"
             except Exception:
-                out.append("ERR")
+                ans = "ERR"
+            if _snapshot_arg(arg) != snap:     # an argument is an input, not scratch space
+                ans += "!" + _show_arr(arg)
+            out.append(ans)
         elif op[0] == "G":
             period = _real_period(op[1])
             try:
@@ -304,6 +333,11 @@ def oracle(case: Case, out: str):
             continue
         # S
         _, p, mode, amount = op
+        mode = mode.partition("@")[0]
+        ans, _, mutated = ans.partition("!")
+        if mutated:
+            return ("caller-array-mutated", f"the caller's own {mode}-object passed to set_input on {ptok(p)} held {vtok(amount)} "
+                    f"when first passed and holds {mutated} after the call")
         before = state
         after = _parse_snapshot(answers[idx + 1]) if idx + 1 < len(ops) and ops[idx + 1][0] == "K" else None
         state = after if after is not None else (before if ans == "ERR" else None)
@@ -381,7 +415,7 @@ def nontrivial(case: Case, out: str) -> bool:
     du, rule, kind, count, ops = parsed
     answers = out.split(" ")
     for op, ans in zip(ops, answers):
-        if op[0] == "S" and ans == "ok" and (op[1][0] != du or op[1][2] != 1):
+        if op[0] == "S" and ans.partition("!")[0] == "ok" and (op[1][0] != du or op[1][2] != 1):
             return True
     return False
 
@@ -487,12 +521,18 @@ def build_line(du, rule, kind, count, steps, claimed=True, tags=()):
             toks.append(f"{s[0]}|{ptok(s[1])}")
         else:
             toks.append("K")
-    modes = sorted({"in:" + s[2] for s in steps if s[0] == "S"})
+    modes = sorted({"in:" + s[2].partition("@")[0] for s in steps if s[0] == "S"}
+                   | {"reused-object" for s in steps if s[0] == "S" and "@" in s[2]})
     return Case(line=" ".join(["sin", du, rule, kind, str(count), *toks]), claimed=claimed,
                 tags=(du, rule, kind, f"n{count}") + tuple(modes) + tuple(tags))
 
 
-def _mode(rng, integral):
+def _mode(rng, integral, kind="num"):
+    """every container the API accepts, chosen per operation; one time in four an array of exactly
+    the variable's dtype (the only kind `_to_array` hands on without converting, hence copying)"""
+    exact = "j" if kind == "int" else "g"
+    if rng.random() < 0.25 and (integral or exact == "g"):
+        return exact
     if integral and rng.random() < 0.45:
         return rng.choice(INT_MODES)
     return rng.choice(FLOAT_MODES)
@@ -561,7 +601,7 @@ def history(rng: random.Random, tier: str):
     for oname, seq in orders:
         steps = []
         for i, (p, v) in enumerate(seq):
-            steps.append(("S", p, _mode(rng, _is_integral(v)), v))
+            steps.append(("S", p, _mode(rng, _is_integral(v), kind), v))
             if not big or i >= len(seq) - 2 or p[2] != 1 or p[0] != du:
                 steps.append(("K",))
         if rng.random() < 0.3:
@@ -572,6 +612,58 @@ def history(rng: random.Random, tier: str):
         steps.append(("K",))
         out.append(build_line(du, rule, kind, count, steps, tags=tags + [oname]))
     return out
+
+
+def reuse_history(rng: random.Random, tier: str):
+    """the caller keeps ONE object (mostly an array of exactly the variable's dtype) and passes it for
+    several long periods in a row — the same yearly amount for 2018, 2019, ... — with non-zero pieces
+    pre-set inside some of them. Amounts are multiples of n x (n - k) so that every share is exact."""
+    du = rng.choice(["day", "month", "month", "year"])
+    rule = "divide" if rng.random() < 0.75 else "dispatch"
+    kind = "int" if rng.random() < 0.2 else "num"
+    count = rng.choice([1, 2, 2, 3])
+    while True:
+        P = long_period(rng, du, "quick")
+        subs = tiles(P, du)
+        n = len(subs)
+        if n <= 400:
+            break
+    # the periods that follow P, each as long as P
+    periods_ = [P]
+    for _ in range(rng.choice([1, 1, 2])):
+        last = tiles(periods_[-1], du)[-1]
+        nxt = (P[0], addm_t(last[1], du, 1), P[2])
+        if tiles(nxt, du) is None or len(tiles(nxt, du)) != n:
+            break
+        periods_.append(nxt)
+    k = rng.choice([1, 1, 2, 3]) if n > 3 else 1
+    k = min(k, n - 1)
+    n_u = n - k
+    host = rng.randrange(len(periods_))                 # the period that holds the pre-set pieces
+    pre = rng.sample(tiles(periods_[host], du), k)
+    unit = Fraction(1) if (kind == "int" or rng.random() < 0.5) else Fraction(1, rng.choice([2, 4]))
+    steps = []
+    for q in pre:
+        v = [(n_u if rule == "divide" else 1) * rng.randint(1, 8) * unit for _ in range(count)]          # non-zero
+        steps.append(("S", q, _mode(rng, _is_integral(v), kind), v))
+    steps.append(("K",))
+    amount = [n * n_u * rng.randint(1, 3) * unit for _ in range(count)]
+    if rule == "dispatch":       # the value is repeated in every piece: keep the sum over the period small
+        amount = [rng.randint(1, 64) * unit for _ in range(count)]
+    integral = _is_integral(amount)
+    exact = "j" if kind == "int" else "g"
+    mode = exact if rng.random() < 0.7 else _mode(rng, integral, kind)
+    order = periods_[:]
+    if rng.random() < 0.3:
+        rng.shuffle(order)
+    for L in order:
+        steps.append(("S", L, mode + "@1", amount))
+        steps.append(("K",))
+    for L in periods_:
+        steps.append(("A", L))
+    steps.append(("K",))
+    return build_line(du, rule, kind, count, steps,
+                      tags=(f"{P[0]}>{du}", "reuse", "host-first" if order[0] == periods_[host] else "host-later"))
 
 
 def addm_t(s, du, k):
@@ -639,10 +731,12 @@ MALFORMED = [
 
 
 def generate(rng: random.Random, tier: str):
-    n = 12000 if tier == "quick" else 100000
+    n = 9000 if tier == "quick" else 100000
     out = []
     for _ in range(n):
         out += history(rng, tier)
+    for _ in range(n // 5):
+        out.append(reuse_history(rng, tier))
     for _ in range(n // 12):
         out.append(unclaimed_history(rng))
     for line in MALFORMED:
@@ -662,6 +756,14 @@ def corpus():
         build_line("month", "divide", "num", 2, [("S", feb, "f", [F(5), F(1)]), ("K",), ("S", Y18, "i", [F(27), F(12)]), ("K",), ("A", Y18)], tags=("corpus", "F-C16b")),
         # F-C16c: int variable, each share truncated (100 over 12 months sums to 96)
         build_line("month", "divide", "int", 1, [("S", Y18, "i", [F(100)]), ("K",), ("A", Y18)], tags=("corpus", "F-C16c")),
+        # seeded change C16-3: `remaining_array = array` (no copy) turns the caller's own float32 array into the
+        # remainder; the same object passed for the next year then spreads the remainder instead of the amount
+        build_line("month", "divide", "num", 2, [("S", ("month", (2018, 1, 1), 1), "f", [F(100), F(200)]), ("K",),
+                                                 ("S", Y18, "g@1", [F(1200), F(2400)]), ("K",),
+                                                 ("S", ("year", (2019, 1, 1), 1), "g@1", [F(1200), F(2400)]), ("K",),
+                                                 ("A", Y18), ("A", ("year", (2019, 1, 1), 1))], tags=("corpus", "seeded-C16-3")),
+        build_line("month", "divide", "int", 1, [("S", ("month", (2018, 3, 1), 1), "i", [F(11)]), ("K",),
+                                                 ("S", Y18, "j@1", [F(132)]), ("K",), ("A", Y18)], tags=("corpus", "seeded-C16-3")),
         # the situations of tests/core/test_holders.py and their day-level / leap / rolling analogues
         build_line("month", "divide", "num", 1, [("S", Y18, "f", [F(12000)]), ("K",), ("A", Y18)], tags=("corpus",)),
         build_line("month", "divide", "num", 1, [("S", ("month", (2018, 12, 1), 1), "f", [F(1000)]), ("K",), ("S", Y18, "f", [F(12000)]), ("K",), ("A", Y18)], tags=("corpus",)),
@@ -746,7 +848,10 @@ PROP = Prop(
           "order (sometimes twice); 1-3 long inputs (the period, sub-ranges, shifted copies, super-periods) with amounts = known total + "
           "#unknown x lattice share (or a deliberate contradiction when everything is known, or a non-divisible amount on int variables); the "
           "same calls replayed shuffled / longest-first when every share stays on the lattice; values passed as Python floats, Python ints, "
-          "float64/float32/int64/int32 arrays. After every set_input the whole store is read back, then calculate_add over every long period. "
+          "float64/float32/int64/int32 arrays, tuples — chosen per operation, one in four an array of exactly the variable's dtype. After every "
+          "set_input the caller's own object is compared with a snapshot taken before the call and the whole store is read back, then "
+          "calculate_add over every long period. One history in six keeps ONE caller object and passes it for 2-3 consecutive long periods "
+          "(pieces pre-set with non-zero values inside one of them). "
           "Plus variables without rule (routing errors, binding) and a non-binding stream (week/weekday/eternity variables, unaligned or shorter periods, wrong length, ADD first) and "
           "malformed lines. Non-trivial = at least one accepted input on a period longer than the definition period."),
     assumptions=[
